@@ -7,7 +7,7 @@ from .common import LEAN
 ID = 'C20'
 PROPS_MODULE = 'Refine.Props.C20'
 STREAMS = [streams_codec.C20_MESHB, streams_codec.C20_SOLB, streams_codec.C20_ROBUST,
-           streams_codec.C20_HANG, streams_codec.C20_INDEX, streams_codec.C20_COUNT]
+           streams_codec.C20_HANG, streams_codec.C20_INDEX, streams_codec.C20_COUNT, streams_codec.C20_NAMES]
 EXPLANATION = (
     'Obligations on the reader models (Refine/Props/C20.lean): totality; accepted_counts_fit (proved for the '
     'faithful meshb reader); header_progress, accepted_indices_in_range, solb_alloc_bounded: FALSE of the '
@@ -20,10 +20,14 @@ EXPLANATION = (
     'Streams c20_hang, c20_index, c20_count replay the Lean witnesses and the mutants of those classes against '
     'the real readers in a forked child (alarm, allocator cap, peak-RSS check): while /repo lacks the checks '
     'they fail deterministically (timeout / sanitizer abort / >300 MB touched) with stable sites '
-    'meshb-header-no-progress, meshb-vertex-index-unchecked, solb-declared-count-trusted.')
+    'meshb-header-no-progress, meshb-vertex-index-unchecked, solb-declared-count-trusted.  Stream c20_names '
+    'drives the suffix dispatch of ref_import_by_extension / ref_export_by_extension / ref_part_metric with file '
+    'names shorter than the longest suffix (site by-extension-short-file-name; the out-of-bounds read before the '
+    'string was fixed in /repo by commit cdfd7e9, the stream is the regression guard); no Lean obligation is '
+    'attached to it.')
 ASSUMPTIONS = [
-    'only the binary libMeshb readers (.meshb, .solb scalar and metric) are covered; ugrid, mapbc, text formats '
-    'and file-name handling of *_by_extension are not',
+    'only the binary libMeshb readers (.meshb, .solb scalar and metric) are modelled; ugrid, mapbc, text formats '
+    'are not; file-name handling of *_by_extension is exercised (c20_names) but not modelled',
     'malloc above 1 GiB returns NULL (harness: ASan allocator cap; model: Cfg.allocCap); ref_adj growth is '
     'modelled by its request size only',
     'signed-overflow points of the C (ref_adj_add chunk, nodes[i]--, ldim*chunk) are modelled as `ub`; mutants '
